@@ -106,11 +106,13 @@ func checkC20(env *kernel.Env) {
 			for i := 0; i < n; i++ {
 				nextV++
 				rs := rowSpec{v: nextV}
-				switch T.Pick(5, 1, 2) {
+				switch T.Pick(5, 1, 2, 2) {
 				case 0:
 					rs.idLit, rs.gen = "NULL", true
 				case 1:
 					rs.idLit, rs.gen = "0", true
+				case 3:
+					rs.idLit, rs.gen = "DEFAULT", true // the keyword: generates like NULL
 				default:
 					id := maxStored + int64(T.Range(1, 6)) + int64(i*10)
 					if T.Bool(1, 4) && maxStored > 3 {
